@@ -104,7 +104,8 @@ def listing_cases(tier):
     """(pages, prefix, suffix): pages are lists of keys; every page non-empty after the prefix filter, or
     the listing is empty (how S3 answers)."""
     keysets = [[], ['a/1.mos.xml'], ['a/1.mos.xml', 'a/2.txt'], ['a/x.mos.xml', 'a/y.mos.xml', 'a/z.json'],
-               ['a/only.txt'], ['a/deep/3.mos.xml', 'a/.mos.xml', 'a/4.mos.xmlx']]
+               ['a/only.txt'], ['a/deep/3.mos.xml', 'a/.mos.xml', 'a/4.mos.xmlx'],
+               ['a/UPPER.MOS.XML', 'a/lower.mos.xml', 'a/Mixed.Mos.Xml', 'a/note.TXT']]
     out = []
     maxp = 3 if tier == 'quick' else 4
     for npages in range(0, maxp + 1):
@@ -118,6 +119,9 @@ def listing_cases(tier):
             for prefix in prefixes:
                 for suffix in ('.mos.xml', '.txt', ''):
                     out.append((pages, prefix, suffix))
+                if any('UPPER' in k for pg in pages for k in pg):
+                    for suffix in ('.MOS.XML', '.Mos.Xml', '.TXT'):      # the suffix test is case-sensitive on both sides
+                        out.append((pages, prefix, suffix))
     return out
 
 
@@ -299,6 +303,11 @@ def model_files(pool, names, root):
     return out
 
 
+def outfile_writable(path):
+    """Can `open(path, 'w')` succeed? (an existing directory or a missing parent directory cannot)"""
+    return not os.path.isdir(path) and os.path.isdir(os.path.dirname(path) or '.')
+
+
 def split_lines(s):
     return s.split('\n')[:-1] if s else []
 
@@ -338,11 +347,34 @@ def run_c19(tier, seed):
         merge_sets.append(['ro.mos.xml', 'delete.mos.xml'])
         merge_sets.append(['ro.mos.xml', 'ro.mos.xml', 'delete.mos.xml'])
         merge_sets.append(['delete.mos.xml'])
+        # messages that share one message ID are merged in the order they are listed (the sort is stable):
+        # file names whose alphabetical order is the opposite of the listing order, both ways round
+        tie = {'tie_ro.mos.xml': B.ro_doc([B.story('A', [B.item('a1')])], message_id='3'),
+               'zz_tie_first.mos.xml': B.story_append([B.story('T1')], message_id='5'),
+               'aa_tie_second.mos.xml': B.story_append([B.story('T2')], message_id='5'),
+               'mm_tie_insert.mos.xml': B.story_insert('A', [B.story('T3')], message_id='5'),
+               'bb_tie_delete.mos.xml': B.story_delete(['T3'], message_id='5'),
+               'tie_end.mos.xml': B.ro_delete(message_id='5')}
+        for n, d in tie.items():
+            pool[n] = ('xml', TJ.to_text(d))
+        materialise({n: pool[n] for n in tie}, root)
+        for order in (['zz_tie_first.mos.xml', 'aa_tie_second.mos.xml'], ['aa_tie_second.mos.xml', 'zz_tie_first.mos.xml'],
+                      ['mm_tie_insert.mos.xml', 'bb_tie_delete.mos.xml', 'zz_tie_first.mos.xml'],
+                      ['bb_tie_delete.mos.xml', 'mm_tie_insert.mos.xml', 'aa_tie_second.mos.xml'],
+                      ['zz_tie_first.mos.xml', 'tie_end.mos.xml', 'aa_tie_second.mos.xml'],
+                      ['tie_end.mos.xml', 'zz_tie_first.mos.xml']):
+            merge_sets.append(['tie_ro.mos.xml'] + order)
+            merge_sets.append(order + ['tie_ro.mos.xml'])
         for ms in merge_sets:
             for inc in (False, True):
                 for ns in (False, True):
                     for outf in (None, 'merged_out.xml'):
                         jobs.append(('merge', ms, {'incomplete': inc, 'non_strict': ns, 'outfile': outf}))
+        # an outfile that cannot be opened for writing is an error like any other
+        for ms in merge_sets[::3] + merge_sets[-12:]:
+            for outf in ('adir', os.path.join('no', 'such', 'dir', 'out.xml')):
+                k = len(jobs)
+                jobs.append(('merge', ms, {'incomplete': bool(k % 2), 'non_strict': bool((k // 2) % 2), 'outfile': outf}))
         # the same commands over a (fake) S3 bucket: -b/-p/-s/-k
         s3_names = [n for n in sorted(pool) if pool[n][0] in ('xml', 'notxml')]
         s3_objects = {'pfx/' + n: pool[n][1].encode('utf-8') for n in s3_names}
@@ -423,6 +455,7 @@ def run_c19(tier, seed):
                 r['non_strict'] = opts['non_strict']
                 if opts['outfile']:
                     r['outfile'] = os.path.join(root, opts['outfile'])
+                    r['outfile_writable'] = outfile_writable(r['outfile'])
             reqs.append(r)
         resps = lean.run_batch(reqs)
         for (cmd, lst, opts), r in zip(jobs, resps):
@@ -473,13 +506,13 @@ def run_c19(tier, seed):
                     oc.nontrivial.add(stable_hash([cmd, lst]))
             else:
                 outp = os.path.join(root, opts['outfile']) if opts['outfile'] else None
-                if outp and os.path.exists(outp):
+                if outp and os.path.isfile(outp):
                     os.unlink(outp)
                 argv = ['merge', '-f'] + paths + (['-o', outp] if outp else []) + (['-i'] if opts['incomplete'] else []) + \
                        (['-n'] if opts['non_strict'] else [])
                 so, se, rv = run_cli(argv)
                 status = 0 if rv is None else rv
-                written = open(outp, encoding='utf-8').read() if outp and os.path.exists(outp) else None
+                written = open(outp, encoding='utf-8').read() if outp and os.path.isfile(outp) else None
                 got = {'status': status, 'stdout': so, 'written': written}
                 model = {'status': r['status'], 'stdout': (r['stdout'] + '\n') if r['stdout'] is not None else '', 'written': r['written']}
                 if got != model:
@@ -495,7 +528,7 @@ def run_c19(tier, seed):
                     lib = str(mc)
                 except Exception:  # noqa: BLE001
                     lib = None
-                if lib is None:
+                if lib is None or (outp and not outfile_writable(outp)):
                     if status != 2 or not se or so or written is not None:
                         bad.append('an error must give status 2 with a message on stderr and write nothing')
                 else:
